@@ -177,6 +177,8 @@ DRIVERS = {"C01": C01, "C02": C02}
 # ---------------------------------------------------------------------------
 from . import oracles as O
 from ..containers import FUNCS as FUNCS_REG
+from ..containers import SLOTS as SLOTS_REG
+from .model import ast_paths
 from ..containers import raw_set
 from .world import World, run_traced
 
@@ -1305,14 +1307,25 @@ class C13:
                 if last_args and rm.random() < 0.45 and all(not m.is_derived(p) for p in last_args):
                     args = list(last_args)
                 last_args = list(args)
-                vals = tuple(gen_value(rm, spec.leaf_type[p]) for p in args)
+                vals = [gen_value(rm, spec.leaf_type[p]) for p in args]
+                if spec.funcs and rm.random() < 0.3:
+                    # one argument is an entry of the function container: the setter then also swaps the function
+                    # that call expressions use (f.lin = linb), before, between or after the other arguments
+                    called = sorted(set(a[1][1] for d in m.defs.values() for a in ast_paths(d) if a[0] == "f") - {"vsum"})
+                    if called:
+                        slot = rm.choice(called)
+                        impl = [x for x in SLOTS_REG[slot] if x != m.funcs.get(slot, slot)]
+                        pos = rm.randint(0, len(args)) if rm.random() < 0.5 else len(args)
+                        args.insert(pos, ("f", ("a", slot)))
+                        vals.insert(pos, rm.choice(impl) if impl and rm.random() < 0.85 else m.funcs.get(slot, slot))
+                vals = tuple(vals)
                 mk = ("genfun", tuple(args), vals)
                 # keep the generator's model in step: the call is equivalent to sequential assignments
                 ok = True
                 mm = m.clone()
                 for p, v in zip(args, vals):
                     try:
-                        model_step(mm, ("setv", p, v, "mgr"), True)
+                        model_step(mm, C13._assign_op(p, v), True)
                     except ModelReject:
                         ok = False
                         break
@@ -1321,7 +1334,26 @@ class C13:
                     ops.append(mk)
             if k < cfg["n_ops"]:
                 ops.extend(hg.history(n_ops=1))
+        if rm.random() < 0.2 and not cfg["nplit"]:
+            # last call of the history: one argument, a value at the edge of the float range ("all argument values").
+            # Python may raise (OverflowError from ** or from rounding an infinity) or produce inf/nan: whatever it
+            # does, the generated function and the assignment through the manager must do the same.
+            m = hg.model
+            fl = [l for l in spec.leaves if not m.is_derived(l) and spec.leaf_type[l] == "f"]
+            used = set()
+            for a in m.defs.values():
+                used.update(m.static_reads_of_ast(a))
+            fl = [l for l in fl if l in used] or fl
+            if fl and m.defs:
+                ops.append(("genfun", (rm.choice(fl),), (rm.choice([1e200, -1e200, 1e155, 1.7e308, -1e308, 1e-320, 2.0 ** 600]),), "extreme"))
         return {"cfg": cfg, "spec": spec.to_json(), "ops": ops}
+
+    @staticmethod
+    def _assign_op(p, v):
+        """the assignment one argument of a generated setter stands for"""
+        if p[0] == "f":
+            return ("setfunc", p[1][1], v)
+        return ("setv", p, v, "mgr")
 
     @staticmethod
     def execute(ctx, case):
@@ -1352,7 +1384,8 @@ class C13:
                         ex.count("stopped_on_content_mismatch")     # C01's business
                         break
                     continue
-                _, args, vals = op
+                _, args, vals = op[:3]
+                extreme = len(op) > 3 and op[3] == "extreme"
                 if any(ex.model.is_derived(p) for p in args) or len(set(args)) != len(args):
                     ex.count("skipped")
                     continue
@@ -1363,10 +1396,37 @@ class C13:
                 infos = []
                 try:
                     for p, v in zip(args, vals):
-                        inf = model_step(m2, ("setv", p, v, "mgr"), True)
+                        inf = model_step(m2, C13._assign_op(p, v), True)
                         infos.append(inf)
                         trig_all |= inf.trig
                 except ModelReject:
+                    if extreme and len(args) == 1:
+                        # outside what the model follows (overflow, infinities): the two executions are compared with each
+                        # other - same exception class or none, and without an exception the same contents
+                        kw1 = {"x0": S.ref(args[0])}
+                        f = S.mgr.gen_fun("fnx", **kw1)
+                        tr, e1 = run_traced(lambda: f(vals[0]))
+                        tr, e2 = run_traced(lambda: T.apply(("setv", args[0], vals[0], "mgr")))
+                        for e in (e1, e2):
+                            if isinstance(e, SimStall):
+                                raise e
+                        ex.count("gen_fun_calls_with_extreme_value")
+                        if e1 is not None or e2 is not None:
+                            ex.count("gen_fun_extreme_value_raises")
+                        where = "gen_fun call with %s = %r before op %d" % (path_str(args[0]), vals[0], i)
+                        if not isinstance(e1, ZeroDivisionError) and not isinstance(e2, ZeroDivisionError):
+                            if type(e1) is not type(e2):
+                                raise Violation(prop + ".exception_differs", "%s: the generated function %s, assigning through the manager %s"
+                                                % (where, "raised %s: %s" % (type(e1).__name__, e1) if e1 is not None else "returned normally",
+                                                   "raised %s: %s" % (type(e2).__name__, e2) if e2 is not None else "returned normally"))
+                            if e1 is None:
+                                c1, c2 = S.contents(), T.contents()
+                                for loc in spec.leaves:
+                                    if not same(plain(c1[loc]), plain(c2[loc])):
+                                        raise Violation(prop + ".differs", "%s: %s holds %r after the generated function, %r after assigning through the manager"
+                                                        % (where, path_str(loc), c1[loc], c2[loc]))
+                        calls += 1
+                        break               # the model does not follow this state
                     ex.count("skipped")
                     continue
                 values = infos[-1].values
@@ -1440,7 +1500,9 @@ class C13:
                 calls += 1
                 ex.count("gen_fun_calls")
                 ex.count("tasks_in_generated_functions", len(got))
-                tr, exc = run_traced(lambda: f(*vals))
+                if any(p[0] == "f" for p in args):
+                    ex.count("gen_fun_calls_with_function_argument")
+                tr, exc = run_traced(lambda: f(*[FUNCS_REG[v] if p[0] == "f" else v for p, v in zip(args, vals)]))
                 if isinstance(exc, SimStall):
                     raise exc
                 if isinstance(exc, ZeroDivisionError):
@@ -1449,7 +1511,7 @@ class C13:
                 if exc is not None:
                     raise Violation(prop + ".call_raises", "%s: calling the generated function raised %s: %s" % (where, type(exc).__name__, exc))
                 for p, v in zip(args, vals):
-                    tr2, exc2 = run_traced(lambda: T.apply(("setv", p, v, "mgr")))
+                    tr2, exc2 = run_traced(lambda: T.apply(C13._assign_op(p, v)))
                     if exc2 is not None:
                         raise Violation(prop + ".twin_raises", "%s: assigning through the manager raised %s" % (where, exc2))
                 ex.model.adopt(m2)
